@@ -140,7 +140,7 @@ template<int D> void run_case(long id, view_program const& p, std::string const&
 		}, cur);
 	}
 	os << "}\n";
-	std::cout << os.str();
+	std::cout << os.str() << std::flush;
 }
 
 int main() {
